@@ -365,6 +365,7 @@ func (s *sim) buildBlock(parent *mBlock, bs *BlockSpec) *mBlock {
 	var txs []interfaces.Transaction
 	var infos []*txInfo
 	fees := new(big.Int)
+	var lastFee *big.Int
 	selfOK, why := true, ""
 	var labels []string
 	for _, spec := range bs.Txs {
@@ -372,12 +373,14 @@ func (s *sim) buildBlock(parent *mBlock, bs *BlockSpec) *mBlock {
 		if info == nil {
 			continue
 		}
-		label, fee := labelTx(v, info.facts, height, int64(cfg.MinTransactionFee), cfg.PowConfiguration.CoinbaseMaturity)
+		label, fee := s.label(v, info, height)
 		labels = append(labels, label)
 		if label == "" {
 			applyTx(v, info.tx.Hash(), info.facts, info.outs, height)
 			fees.Add(fees, fee)
+			lastFee = fee
 		} else {
+			lastFee = nil
 			if selfOK {
 				selfOK, why = false, label
 			}
@@ -400,6 +403,10 @@ func (s *sim) buildBlock(parent *mBlock, bs *BlockSpec) *mBlock {
 	}
 	blk := &types.Block{Header: common2.Header{Version: 0, Previous: parent.hash, Height: height, Bits: cfg.PowConfiguration.PowLimitBits}}
 	blk.Transactions = append([]interfaces.Transaction{cb}, txs...)
+	if bs.Bad == "dup-tx" && lastFee != nil {
+		// the Byzantine miner who includes a transaction twice also collects its fee twice
+		fees.Add(fees, lastFee)
+	}
 	reward := new(big.Int).Add(fees, big.NewInt(int64(cfg.GetBlockReward(height))))
 	total := reward.Int64()
 	switch bs.Bad {
